@@ -213,7 +213,19 @@ def shape(d):
     k = d[0]
     if k == "place":
         parts = d[1].split(".")
-        return ("place", ".".join(["_"] + parts[1:]))
+        # the payload of a matched Option / Result (`(x as Some).0`, the binding of `if let Some(e) = x` or of a
+        # lowered `x.map(|e| ..)`) is the same "some value" as a closure parameter or a pattern variable
+        rest, skip = [], False
+        for q in parts[1:]:
+            if q.startswith("as ") and q[3:] in ("Some", "Ok", "Err", "Continue", "Break"):
+                skip = True
+                continue
+            if skip and q.isdigit():
+                skip = False
+                continue
+            skip = False
+            rest.append(q)
+        return ("place", ".".join(["_"] + rest))
     if k == "tmp":
         return ("place", "_")
     if k == "call":
@@ -256,6 +268,8 @@ def expand_names(fl, d, depth=5):
         from engines import value_of_named
 
         v = value_of_named(fl, d[1])
+        if v is None and k == "place":
+            v = search_loop_value(fl, d[1])
         if v is None:
             return d
         v = norm(v)
@@ -272,6 +286,70 @@ def expand_names(fl, d, depth=5):
     if k == "index":
         return ("index", expand_names(fl, d[1], depth - 1), expand_names(fl, d[2], depth - 1))
     return d
+
+
+def search_loop_value(fl, name):
+    """`let mut found = None; for (i, x) in C.iter().enumerate() { if p(x) { found = Some(i); break; } }` is
+    `C.iter().position(p)` written as a loop: an Option local whose definitions are one `None` outside and `Some(..)`
+    inside a loop over an iterator gets the description of that search, so that unwrapping it is the same panic site
+    (same key in the review table) as unwrapping the adaptor's result"""
+    b = fl.b
+    if "." in name or "[" in name or "*" in name:
+        return None
+    ls = b.locals_named(name)
+    if len(ls) != 1 or not b.local_ty(ls[0]).startswith("std::option::Option<"):
+        return None
+    nones, somes = [], []
+    for (bb, d) in b.assigns_to(ls[0]):
+        rv = getattr(d, "rv", None)
+        if rv is None or d.lhs.proj:
+            return None
+        for _ in range(4):
+            # `found = move _t` with `_t = Some(i)`
+            if rv.k == "use" and rv.ops and rv.ops[0].place is not None and not rv.ops[0].place.proj and b.local_name(rv.ops[0].place.local) is None:
+                d2 = fl.single_def(rv.ops[0].place.local)
+                if d2 is not None and getattr(d2, "rv", None) is not None:
+                    rv = d2.rv
+                    continue
+            break
+        if rv.k == "aggr" and rv.j.get("variant") == "None":
+            nones.append(bb)
+        elif rv.k == "aggr" and rv.j.get("variant") == "Some":
+            somes.append(bb)
+        elif rv.k == "use" and rv.ops and rv.ops[0].place is None and "None" in str((rv.ops[0].c or {}).get("s", "")):
+            nones.append(bb)
+        else:
+            return None
+    if len(nones) != 1 or not somes:
+        return None
+    from hashord import natural_loop_blocks
+
+    nexts = [t for t in b.calls() if t.callee and t.callee.short.endswith("Iterator::next")]
+    src = None
+    from engines import value_of_named
+
+    for bb in somes:
+        # the innermost iterator loop whose header dominates the assignment (a `break` block lies outside the natural
+        # loop but is still dominated by its header) and does not dominate the `None` initialisation
+        best = None
+        for t in nexts:
+            lb = natural_loop_blocks(b, t.bb)
+            if len(lb) > 1 and b.dominates(t.bb, bb) and not b.dominates(t.bb, nones[0]) and (bb in lb or any(p_ in lb for p_ in b.pred(bb)) or any(q_ in lb for p_ in b.pred(bb) for q_ in b.pred(p_))) and (best is None or len(lb) < len(best[1])):
+                best = (t, lb)
+        if best is None:
+            return None
+        dsrc = norm(fl.describe(best[0].args[0], depth=10))
+        for _ in range(8):
+            if isinstance(dsrc, tuple) and dsrc[0] == "call" and dsrc[1].split("::")[-1] in ("enumerate", "into_iter", "iter", "iter_mut", "by_ref") and dsrc[2]:
+                dsrc = norm(dsrc[2][0])
+            elif isinstance(dsrc, tuple) and dsrc[0] in ("place", "tmp") and value_of_named(fl, dsrc[1]) is not None:
+                dsrc = norm(value_of_named(fl, dsrc[1]))
+            else:
+                break
+        if src is not None and src != dsrc:
+            return None
+        src = dsrc
+    return ("call", "core::iter::Iterator::position", (src, ("closure", ("place", "_"))))
 
 
 def origin_of(fl, site):
